@@ -265,8 +265,9 @@ def reference_value(ctx: Ctx, short: str, qualname: str, ref_src: str, args: dic
     indent = len(lines[f.node.lineno - 1]) - len(lines[f.node.lineno - 1].lstrip())
     new = textwrap.indent(textwrap.dedent(ref_src).strip("\n"), " " * indent).split("\n")
     overlay = dict(getattr(ctx.sm, "overlay", {}) or {})
+    overlay.update(ctx.sm.text)  # the texts as analysed (renames already normalised)
     overlay[rel] = "\n".join(lines[:start] + new + lines[end:])
-    sm2 = SourceModel(ctx.repo, overlay=overlay)
+    sm2 = SourceModel(ctx.repo, overlay=overlay, normalise_renames=False)
     # the reference keeps its own name: it stands where the function stands (same module, class or enclosing function)
     import re as _re
 
